@@ -1246,6 +1246,13 @@ func (w *responseWriter) reportEnd(end *responseEnd) {
 		// first such call and ignore the others.
 		return
 	}
+	if w.respMeta != nil {
+		// Trailers the handler has stored in the header map so far are either
+		// already part of end (normal completion, see close) or superseded by it
+		// (error): they must not reach the client next to the end reported here,
+		// neither as trailers nor as plain headers.
+		httpExtractTrailers(w.Header(), w.respMeta.pendingTrailerKeys)
+	}
 	if w.respMeta != nil && len(w.respMeta.pendingTrailers) > 0 && len(end.trailers) == 0 {
 		// add any pending trailers to the end
 		end.trailers = w.respMeta.pendingTrailers
@@ -1331,12 +1338,6 @@ func (w *responseWriter) close() {
 }
 
 func (w *responseWriter) writeEnd(end *responseEnd, wasInHeaders bool) {
-	if !wasInHeaders && w.respMeta != nil {
-		// Trailers the handler has stored so far are either already part of end
-		// (normal completion) or superseded by it (error): they must not be sent
-		// next to the ones written below.
-		httpExtractTrailers(w.Header(), w.respMeta.pendingTrailerKeys)
-	}
 	trailers := w.op.client.protocol.encodeEnd(w.op, end, w.delegate, wasInHeaders)
 	httpMergeTrailers(w.Header(), trailers)
 	w.endWritten = true
